@@ -16,8 +16,11 @@ CHECK = {
              "stack); oracle = serial single-stream results. "
              "part tsan: every assignment of 3 events to 2 streams (8) and to 3 streams (27), plus one "
              "event per stream for 4, 8 and 16 streams (identity assignment and rotated by one), x the same "
-             "six variants, each repeated with free-running threads that construct their "
-             "Steppers concurrently on one shared CoreParams, under ThreadSanitizer. celer-sim's "
+             "six variants (quick: the three newer variants run only the 6 three-stream assignments "
+             "that keep all streams busy), each repeated with free-running threads that construct their "
+             "Steppers concurrently on one shared CoreParams, under ThreadSanitizer; the threads rendezvous at every begin-run action and at their first 48 "
+             "step actions (CELERITAS_VERIF hooks) so that the same action of the shared registry really "
+             "runs side by side on all streams even on a busy machine. celer-sim's "
              "Runner/Transporter are modelled by this pattern, not executed. "
              "non-trivial = a distinct (variant, stream count, assignment)."),
     "assumptions": [
